@@ -40,3 +40,44 @@ impl fmt::Display for ValueType {
 pub const KIBI: usize = 1024;
 pub const MEBI: usize = KIBI * KIBI;
 pub const GIBI: usize = MEBI * KIBI;
+
+/// Native stack bytes one recursive phase (parser, resolver, runtime) may use before it
+/// reports an error instead of recursing further. The phases run one after the other from
+/// the same caller, so each gets the whole budget; half of the default 8 MiB thread stack
+/// stays free for the caller, the environment block and error reporting.
+#[cfg(target_family = "wasm")]
+pub const STACK_BUDGET: usize = 512 * KIBI;
+#[cfg(not(target_family = "wasm"))]
+pub const STACK_BUDGET: usize = 4 * MEBI;
+
+/// Detects native stack exhaustion by address: remembers where the stack was when the
+/// guard was created and measures how far it has grown since. Adapts automatically to
+/// debug vs release frame sizes.
+#[derive(Debug, Clone, Copy)]
+pub struct StackGuard(usize);
+
+impl StackGuard {
+    /// Anchors the guard in the caller's frame, which must outlive every probe.
+    #[inline(always)]
+    #[must_use]
+    #[allow(clippy::new_without_default)]
+    pub fn new() -> Self {
+        let anchor = 0u8;
+        Self(&raw const anchor as usize)
+    }
+
+    /// Bytes of native stack in use below the anchor.
+    #[inline]
+    #[must_use]
+    pub fn used(&self) -> usize {
+        let probe = 0u8;
+        self.0.saturating_sub(&raw const probe as usize)
+    }
+
+    /// True when the stack has grown beyond [`STACK_BUDGET`] since the guard was created.
+    #[inline]
+    #[must_use]
+    pub fn exceeded(&self) -> bool {
+        self.used() > STACK_BUDGET
+    }
+}
